@@ -15,10 +15,12 @@ class FailingStream:
         self._inner = inner
         self._fail_at = fail_at
         self.writes = 0
+        self.failed = False
 
     def write(self, data):
         self.writes += 1
         if self.writes == self._fail_at:
+            self.failed = True
             raise InjectedFault('stream write #%d' % self.writes)
         return self._inner.write(data)
 
